@@ -132,6 +132,10 @@ theorem refReserveCapacity_ev (s : Streams) (id cap : Nat) : EvB ρ s (s.refRese
   unfold Streams.refReserveCapacity
   ev_auto
 
+theorem refPollPushed_ev (s : Streams) (id : Nat) (tag : String) : EvB ρ s (s.refPollPushed id tag).1 := by
+  unfold Streams.refPollPushed
+  ev_auto
+
 theorem refPollData_ev (s : Streams) (id : Nat) (tag : String) : EvB ρ s (s.refPollData id tag).1 := by
   unfold Streams.refPollData
   ev_auto
